@@ -155,7 +155,8 @@ theorem handle_nack (env : Nat → Content) (cap : Nat) (st : RepairSt) (store :
 theorem handle_last_valid (env : Nat → Content) (cap : Nat) (st : RepairSt) (store : Store) (b : Bid) (l root : Nat)
     (π : List H) (hout : Req.last b ∈ st.outstanding) (hv : checkProofLast root l b.hash π = true) :
     handleResponse env cap st store (.lastRoot (.last b) l root π) =
-      (sendAll { done st (.last b) with sliceRoots := rootSet st.sliceRoots (b, l) root }
+      (sendAll { done st (.last b) with sliceRoots := rootSet st.sliceRoots (b, l) root,
+                                        lastSlices := lastSet st.lastSlices b l }
           ((List.range (l + 1)).map (fun i => Req.root b i)), store,
         { sent := (List.range (l + 1)).map (fun i => Req.root b i) }) := by
   unfold handleResponse; simp [Resp.req, hout, hv, done]
@@ -180,14 +181,15 @@ def shredOut (b : Bid) (res : AddRes) (evs : List Event) : Out :=
 
 theorem handle_shred_valid (env : Nat → Content) (cap : Nat) (st : RepairSt) (store : Store) (b : Bid) (i j : Nat)
     (s : Shred) (hout : Req.shred b i j ∈ st.outstanding) (hsl : s.slice = i) (hidx : s.idx = j)
-    (hroot : rootGet st.sliceRoots (b, i) = some s.root) :
+    (hroot : rootGet st.sliceRoots (b, i) = some s.root)
+    (hlast : s.isLast = decide (lastGet st.lastSlices b = some i)) :
     handleResponse env cap st store (.shred (.shred b i j) b.slot s true) =
       (done st (.shred b i j), storeSet store b.slot (addRepair env (storeGet cap store b.slot) b.hash s).1,
         shredOut b (addRepair env (storeGet cap store b.slot) b.hash s).2.1
           (addRepair env (storeGet cap store b.slot) b.hash s).2.2) := by
   unfold handleResponse
   simp only [Resp.req, hout, not_true_eq_false, if_false, hsl, hidx, ne_eq, or_self, hroot, Bool.not_true,
-    Bool.false_eq_true]
+    Bool.false_eq_true, hlast]
   generalize addRepair env (storeGet cap store b.slot) b.hash s = ar
   obtain ⟨sd, res, evs⟩ := ar
   simp only [shredOut]
@@ -208,8 +210,44 @@ theorem handle_shred_valid (env : Nat → Content) (cap : Nat) (st : RepairSt) (
 /-- validity, spelled out per response kind, is what makes the handler act -/
 theorem valid_shred_eq (st : RepairSt) (b : Bid) (i j slot : Nat) (s : Shred) (sigOk : Bool)
     (hv : Valid st (.shred (.shred b i j) slot s sigOk)) :
-    slot = b.slot ∧ s.slice = i ∧ s.idx = j ∧ rootGet st.sliceRoots (b, i) = some s.root ∧ sigOk = true := hv
+    slot = b.slot ∧ s.slice = i ∧ s.idx = j ∧ rootGet st.sliceRoots (b, i) = some s.root ∧
+      s.isLast = decide (lastGet st.lastSlices b = some i) ∧ sigOk = true := hv
 
+
+/-! ### the proven last slice indices (fix D26) -/
+
+theorem lastGet_lastSet (m : List (Bid × Nat)) (k k' : Bid) (v : Nat) :
+    lastGet (lastSet m k v) k' = if k' = k then some v else lastGet m k' := by
+  induction m with
+  | nil => simp only [lastSet, lastGet]; split <;> simp_all [eq_comm]
+  | cons kv rest ih =>
+    obtain ⟨k0, w⟩ := kv
+    simp only [lastSet]
+    split
+    · rename_i hk; subst hk
+      simp only [lastGet]
+      by_cases hh : k0 = k'
+      · simp [hh]
+      · simp [hh]; intro h2; exact absurd h2.symm hh
+    · rename_i hk
+      simp only [lastGet, ih]
+      by_cases hh : k0 = k'
+      · subst hh; simp [hk]
+      · simp [hh]
+
+theorem sendRequest_lasts (st : RepairSt) (r : Req) : (sendRequest st r).lastSlices = st.lastSlices := rfl
+
+theorem sendAll_lasts (st : RepairSt) (rs : List Req) : (sendAll st rs).lastSlices = st.lastSlices := by
+  unfold sendAll
+  induction rs generalizing st with
+  | nil => rfl
+  | cons r rest ih => simp only [List.foldl_cons]; rw [ih, sendRequest_lasts]
+
+theorem fireTimeout_lasts (st : RepairSt) : (fireTimeout st).1.lastSlices = st.lastSlices := by
+  unfold fireTimeout
+  split
+  · rfl
+  · simp only; split <;> rfl
 
 /-! ### schedules -/
 
@@ -259,6 +297,9 @@ structure RepInv (B : HBlock) (cap : Nat) (σ : Sys) : Prop where
   live : Live B cap (spotOf cap B σ.store)
   rootsKnown : RootsKnown σ.st
   roots : ∀ i root, rootGet σ.st.sliceRoots (bidOf B, i) = some root → i < B.n ∧ root = B.root i
+  /-- once a slice root of `B` was requested or proven, the recorded last slice index is the leader's -/
+  lastKnown : ∀ i, (Req.root (bidOf B) i ∈ σ.st.outstanding ∨ (rootGet σ.st.sliceRoots (bidOf B, i)).isSome) →
+    lastGet σ.st.lastSlices (bidOf B) = some (B.n - 1)
   reqRoot : ∀ i, Req.root (bidOf B) i ∈ σ.st.outstanding → i < B.n
   reqShred : ∀ i j, Req.shred (bidOf B) i j ∈ σ.st.outstanding → i < B.n ∧ j < TOTAL_SHREDS
   prog : (spotOf cap B σ.store).completed.isSome ∨ Req.last (bidOf B) ∈ σ.st.outstanding ∨
@@ -271,6 +312,7 @@ theorem repInv_grow (B : HBlock) (cap : Nat) (σ σ' : Sys) (hinv : RepInv B cap
     (h1 : ∀ r, r.bid = bidOf B → r ∈ σ.st.outstanding → r ∈ σ'.st.outstanding)
     (h2 : ∀ r, r.bid = bidOf B → r ∈ σ'.st.outstanding → r ∈ σ.st.outstanding ∨ r = .last (bidOf B))
     (hroots : ∀ i, rootGet σ'.st.sliceRoots (bidOf B, i) = rootGet σ.st.sliceRoots (bidOf B, i))
+    (hlasts : lastGet σ'.st.lastSlices (bidOf B) = lastGet σ.st.lastSlices (bidOf B))
     (hrk : RootsKnown σ'.st)
     (hdis : (storeGet cap σ'.store B.slot).dis.completed = (storeGet cap σ.store B.slot).dis.completed)
     (hspot : spotOf cap B σ'.store = spotOf cap B σ.store) : RepInv B cap σ' := by
@@ -279,6 +321,13 @@ theorem repInv_grow (B : HBlock) (cap : Nat) (σ σ' : Sys) (hinv : RepInv B cap
   · rw [hspot]; exact hinv.live
   · exact hrk
   · intro i root h; rw [hroots] at h; exact hinv.roots i root h
+  · intro i h
+    rw [hlasts]
+    rcases h with h | h
+    · rcases h2 _ rfl h with h | h
+      · exact hinv.lastKnown i (Or.inl h)
+      · simp at h
+    · rw [hroots] at h; exact hinv.lastKnown i (Or.inr h)
   · intro i h
     rcases h2 _ rfl h with h | h
     · exact hinv.reqRoot i h
@@ -304,11 +353,12 @@ theorem repInv_grow (B : HBlock) (cap : Nat) (σ σ' : Sys) (hinv : RepInv B cap
 theorem repInv_same (B : HBlock) (cap : Nat) (σ σ' : Sys) (hinv : RepInv B cap σ)
     (hout : ∀ r, r.bid = bidOf B → (r ∈ σ'.st.outstanding ↔ r ∈ σ.st.outstanding))
     (hroots : ∀ i, rootGet σ'.st.sliceRoots (bidOf B, i) = rootGet σ.st.sliceRoots (bidOf B, i))
+    (hlasts : lastGet σ'.st.lastSlices (bidOf B) = lastGet σ.st.lastSlices (bidOf B))
     (hrk : RootsKnown σ'.st)
     (hdis : (storeGet cap σ'.store B.slot).dis.completed = (storeGet cap σ.store B.slot).dis.completed)
     (hspot : spotOf cap B σ'.store = spotOf cap B σ.store) : RepInv B cap σ' :=
   repInv_grow B cap σ σ' hinv (fun r hr h => (hout r hr).mpr h) (fun r hr h => Or.inl ((hout r hr).mp h))
-    hroots hrk hdis hspot
+    hroots hlasts hrk hdis hspot
 
 
 /-! ### steps that do not concern `B` (or only re-send) keep the invariant -/
@@ -343,7 +393,7 @@ theorem fireTimeout_roots (st : RepairSt) : (fireTimeout st).1.sliceRoots = st.s
 theorem repInv_timeout (B : HBlock) (env : Nat → Content) (cap : Nat) (σ : Sys) (hinv : RepInv B cap σ) :
     RepInv B cap (stepEv env cap σ .timeout).1 :=
   repInv_same B cap σ _ hinv (fun r _ => fireTimeout_outstanding σ.st r) (fun i => by simp [stepEv, fireTimeout_roots])
-    (fireTimeout_rootsKnown σ.st hinv.rootsKnown) rfl rfl
+    (by simp [stepEv, fireTimeout_lasts]) (fireTimeout_rootsKnown σ.st hinv.rootsKnown) rfl rfl
 
 theorem repInv_start (B : HBlock) (env : Nat → Content) (cap : Nat) (σ : Sys) (b : Bid) (hinv : RepInv B cap σ) :
     RepInv B cap (stepEv env cap σ (.start b)).1 := by
@@ -363,6 +413,8 @@ theorem repInv_start (B : HBlock) (env : Nat → Content) (cap : Nat) (σ : Sys)
       · right; subst h; simp only [Req.bid] at hr; rw [hr]
   · intro i
     simp only [stepEv, repairBlock]
+    split <;> rfl
+  · simp only [stepEv, repairBlock]
     split <;> rfl
   · exact repairBlock_rootsKnown cap σ.st σ.store b hinv.rootsKnown
   · rfl
@@ -411,7 +463,7 @@ theorem repInv_other (B : HBlock) (env : Nat → Content) (cap : Nat) (σ : Sys)
   | nack r =>
     simp only [Resp.req] at hout
     simp only [stepEv, handle_nack env cap σ.st σ.store r hout] at hrk ⊢
-    refine ⟨repInv_same B cap σ _ hinv ?_ (fun i => rfl) hrk rfl rfl, trivial⟩
+    refine ⟨repInv_same B cap σ _ hinv ?_ (fun i => rfl) rfl hrk rfl rfl, trivial⟩
     intro x _
     rw [sendRequest_outstanding]
     constructor
@@ -425,7 +477,7 @@ theorem repInv_other (B : HBlock) (env : Nat → Content) (cap : Nat) (σ : Sys)
       simp only [Resp.req, Req.bid] at hout hne
       have hv' : checkProofLast root l b.hash π = true := hv
       simp only [stepEv, handle_last_valid env cap σ.st σ.store b l root π hout hv'] at hrk ⊢
-      refine ⟨repInv_same B cap σ _ hinv ?_ ?_ hrk rfl rfl, trivial⟩
+      refine ⟨repInv_same B cap σ _ hinv ?_ ?_ ?_ hrk rfl rfl, trivial⟩
       · intro x hx
         rw [sendAll_outstanding]
         simp only [done_outstanding, List.mem_map, List.mem_range]
@@ -439,6 +491,9 @@ theorem repInv_other (B : HBlock) (env : Nat → Content) (cap : Nat) (σ : Sys)
       · intro i
         rw [sendAll_roots]
         exact rootGet_rootSet_other _ b (bidOf B) i l root hne
+      · rw [sendAll_lasts]
+        simp only [done]
+        rw [lastGet_lastSet, if_neg (fun h => hne h.symm)]
     | root _ _ => exact absurd hv (by simp [Valid])
     | shred _ _ _ => exact absurd hv (by simp [Valid])
   | sliceRoot r root π =>
@@ -447,7 +502,7 @@ theorem repInv_other (B : HBlock) (env : Nat → Content) (cap : Nat) (σ : Sys)
       simp only [Resp.req, Req.bid] at hout hne
       have hv' : checkProof root i0 b.hash π = true := hv
       simp only [stepEv, handle_root_valid env cap σ.st σ.store b i0 root π hout hv'] at hrk ⊢
-      refine ⟨repInv_same B cap σ _ hinv ?_ ?_ hrk rfl rfl, trivial⟩
+      refine ⟨repInv_same B cap σ _ hinv ?_ ?_ ?_ hrk rfl rfl, trivial⟩
       · intro x hx
         rw [sendAll_outstanding]
         simp only [done_outstanding, List.mem_map, List.mem_range]
@@ -461,16 +516,17 @@ theorem repInv_other (B : HBlock) (env : Nat → Content) (cap : Nat) (σ : Sys)
       · intro i
         rw [sendAll_roots]
         exact rootGet_rootSet_other _ b (bidOf B) i i0 root hne
+      · rw [sendAll_lasts]; rfl
     | last _ => exact absurd hv (by simp [Valid])
     | shred _ _ _ => exact absurd hv (by simp [Valid])
   | shred r slot s sigOk =>
     cases r with
     | shred b i j =>
       simp only [Resp.req, Req.bid] at hout hne
-      obtain ⟨rfl, hsl, hidx, hroot, rfl⟩ := valid_shred_eq σ.st b i j slot s sigOk hv
-      simp only [stepEv, handle_shred_valid env cap σ.st σ.store b i j s hout hsl hidx hroot] at hrk ⊢
+      obtain ⟨rfl, hsl, hidx, hroot, hlast, rfl⟩ := valid_shred_eq σ.st b i j slot s sigOk hv
+      simp only [stepEv, handle_shred_valid env cap σ.st σ.store b i j s hout hsl hidx hroot hlast] at hrk ⊢
       have hf := store_frame B env cap σ.store b s hne
-      refine ⟨repInv_same B cap σ _ hinv ?_ (fun _ => rfl) hrk (by rw [hf.2]) hf.1, hf.1⟩
+      refine ⟨repInv_same B cap σ _ hinv ?_ (fun _ => rfl) rfl hrk (by rw [hf.2]) hf.1, hf.1⟩
       intro x hx
       rw [done_outstanding]
       constructor
@@ -484,18 +540,43 @@ theorem repInv_other (B : HBlock) (env : Nat → Content) (cap : Nat) (σ : Sys)
 
 /-! ### responses to requests about `B` -/
 
-/-- **What the completion theorem assumes about the events.** A slice root in a response is a 32-byte
-    hash, never the empty padding leaf (id `0`); and a shred response for `B` that passes the
-    requester's checks (position, proven slice root, leader signature) is the leader's shred: the
-    leader did not sign the same slice root with the other last-slice marker, and the unauthenticated
-    data/coding tag (D15) was not flipped. Both parts are necessary: `derail_by_last_marker`,
-    `derail_by_tag` in `Props/C14Live.lean`. -/
+/-- **What the completion theorem assumes about the events.**
+    (a) *the data/coding tag (D15b)*: a shred response for `B` that passes **all** checks of the requester
+    — position `(slot, slice, index)`, the proven slice root, the last-slice flag against the proven last
+    slice index (fix D26), the leader's signature — carries the tag that matches its index (`ty`). The tag
+    is covered neither by the Merkle path nor by the signature, so the code cannot notice a responder
+    flipping it; necessary: `derail_by_tag` in `Props/C14Live.lean`.
+    (b), (c) *typing constraints of the model's wider response type, not assumptions about peers*: a slice
+    root in a response is a 32-byte hash, never the empty padding leaf (id `0`,
+    `padding_leaf_witness`); and the payload size class of a shred that verifies under the leader's
+    slice root at index `j` is that of the leader's leaf `j` (the payload is what the Merkle path
+    authenticates; in the model `sz` is a free attribute, `size_class_witness`).
+    Nothing is assumed any more about which variants of a slice the leader signed: a validly signed shred
+    with the other last-slice marker is admissible (`evilLast_admissible`) — it is rejected by the code. -/
 def Admissible (B : HBlock) : Ev → Prop
   | .resp (.lastRoot (.last b) _ root _) => b = bidOf B → root ≠ 0
   | .resp (.sliceRoot (.root b _) root _) => b = bidOf B → root ≠ 0
   | .resp (.shred (.shred b i j) _ s sigOk) =>
-    b = bidOf B → sigOk = true → s.slice = i → s.idx = j → s.root = B.root i → s = B.shred i j
+    b = bidOf B → sigOk = true → s.slice = i → s.idx = j → s.root = B.root i → s.isLast = B.isLast i →
+      s.sz = B.sz i ∧ s.ty = true
   | _ => True
+
+theorem shred_eq_of_fields (B : HBlock) (s : Shred) (i j : Nat) (h1 : s.slice = i) (h2 : s.idx = j)
+    (h3 : s.root = B.root i) (h4 : s.isLast = B.isLast i) (h5 : s.sz = B.sz i) (h6 : s.ty = true) :
+    s = B.shred i j := by
+  obtain ⟨sl, il, rt, ix, sz, ty⟩ := s
+  simp only at h1 h2 h3 h4 h5 h6
+  subst h1 h2 h3 h4 h5 h6
+  rfl
+
+/-- under the invariant the requester's last-slice check accepts exactly the leader's flag -/
+theorem last_flag_of_inv (B : HBlock) (cap : Nat) (σ : Sys) (hinv : RepInv B cap σ) (hn : 0 < B.n) (i : Nat)
+    (hr : (rootGet σ.st.sliceRoots (bidOf B, i)).isSome) :
+    decide (lastGet σ.st.lastSlices (bidOf B) = some i) = B.isLast i := by
+  rw [hinv.lastKnown i (Or.inr hr)]
+  simp only [HBlock.isLast, Option.some.injEq]
+  apply decide_eq_decide.mpr
+  omega
 
 /-- the block was announced to Votor and handed to the pool in this step -/
 def Announced (B : HBlock) (o : Out) : Prop :=
@@ -545,7 +626,7 @@ theorem repInv_own (B : HBlock) (env : Nat → Content) (cap : Nat) (hwf : B.WF 
   | nack r =>
     simp only [Resp.req] at hout
     simp only [stepEv, handle_nack env cap σ.st σ.store r hout] at hrk ⊢
-    refine ⟨repInv_same B cap σ _ hinv ?_ (fun i => rfl) hrk rfl rfl, hsame1 ⟨_, σ.store⟩ rfl,
+    refine ⟨repInv_same B cap σ _ hinv ?_ (fun i => rfl) rfl hrk rfl rfl, hsame1 ⟨_, σ.store⟩ rfl,
       hsame2 ⟨_, σ.store⟩ _ rfl, trivial⟩
     intro x _
     rw [sendRequest_outstanding]
@@ -577,6 +658,10 @@ theorem repInv_own (B : HBlock) (env : Nat → Content) (cap : Nat) (hwf : B.WF 
           simp at h; subst hk2; subst h
           exact ⟨by omega, rfl⟩
         · exact hinv.roots i root h
+      · intro i _
+        rw [sendAll_lasts]
+        simp only [done]
+        rw [lastGet_lastSet, if_pos rfl]
       · intro i h
         rw [sendAll_outstanding] at h
         rcases h with h | h
@@ -628,6 +713,9 @@ theorem repInv_own (B : HBlock) (env : Nat → Content) (cap : Nat) (hwf : B.WF 
           simp at h; subst hk; subst h
           exact ⟨hi0, rfl⟩
         · exact hinv.roots i root h
+      · intro i _
+        rw [sendAll_lasts]
+        exact hinv.lastKnown i0 (Or.inl hout)
       · intro i h
         rw [sendAll_outstanding] at h
         rcases h with h | h
@@ -686,12 +774,15 @@ theorem repInv_own (B : HBlock) (env : Nat → Content) (cap : Nat) (hwf : B.WF 
     | shred b i j =>
       simp only [Resp.req, Req.bid] at hout hb
       subst hb
-      obtain ⟨rfl, hsl, hidx, hroot, rfl⟩ := valid_shred_eq σ.st (bidOf B) i j slot s sigOk hv
+      obtain ⟨rfl, hsl, hidx, hroot, hlast, rfl⟩ := valid_shred_eq σ.st (bidOf B) i j slot s sigOk hv
       obtain ⟨hi, hsr⟩ := hinv.roots i s.root hroot
       obtain ⟨_, hj⟩ := hinv.reqShred i j hout
-      have hseq : s = B.shred i j := hadm rfl rfl hsl hidx hsr
+      have hil : s.isLast = B.isLast i := by
+        rw [hlast]; exact last_flag_of_inv B cap σ hinv hn i (by rw [hroot]; rfl)
+      obtain ⟨hsz, hty⟩ := hadm rfl rfl hsl hidx hsr hil
+      have hseq : s = B.shred i j := shred_eq_of_fields B s i j hsl hidx hsr hil hsz hty
       have hs : B.Honest s := ⟨by rw [hsl]; exact hi, by rw [hidx]; exact hj, by rw [hsl, hidx]; exact hseq⟩
-      simp only [stepEv, handle_shred_valid env cap σ.st σ.store (bidOf B) i j s hout hsl hidx hroot] at hrk ⊢
+      simp only [stepEv, handle_shred_valid env cap σ.st σ.store (bidOf B) i j s hout hsl hidx hroot hlast] at hrk ⊢
       have hbs : (bidOf B).slot = B.slot := rfl
       have hbh : (bidOf B).hash = B.block.hash := rfl
       simp only [hbs, hbh]
@@ -706,6 +797,10 @@ theorem repInv_own (B : HBlock) (env : Nat → Content) (cap : Nat) (hwf : B.WF 
         · simp only; rw [e1]; exact hlive
         · exact hrk
         · exact hinv.roots
+        · intro i' h
+          rcases h with h | h
+          · exact hinv.lastKnown i' (Or.inl ((done_outstanding _ _ _).mp h).1)
+          · exact hinv.lastKnown i' (Or.inr h)
         · intro i' h; exact hinv.reqRoot i' ((done_outstanding _ _ _).mp h).1
         · intro i' j' h; exact hinv.reqShred i' j' ((done_outstanding _ _ _).mp h).1
         · simp only; rw [e1]
@@ -1029,8 +1124,11 @@ theorem honest_step (B : HBlock) (env : Nat → Content) (cap : Nat) (hwf : B.WF
     obtain ⟨_, hr⟩ := hinv.roots i root hroot
     subst hr
     have hroot' : rootGet σ.st.sliceRoots (bidOf B, i) = some (B.shred i j).root := hroot
-    simp only [honestResp, stepEv, handle_shred_valid env cap σ.st σ.store (bidOf B) i j (B.shred i j) hout rfl rfl hroot']
-    refine ⟨fun _ _ _ _ _ => rfl, ?_, ?_⟩
+    have hlast : (B.shred i j).isLast = decide (lastGet σ.st.lastSlices (bidOf B) = some i) :=
+      (last_flag_of_inv B cap σ hinv hn i (by rw [hroot]; rfl)).symm
+    simp only [honestResp, stepEv,
+      handle_shred_valid env cap σ.st σ.store (bidOf B) i j (B.shred i j) hout rfl rfl hroot' hlast]
+    refine ⟨fun _ _ _ _ _ _ => ⟨rfl, rfl⟩, ?_, ?_⟩
     · intro x hx hne
       exact (done_outstanding _ _ _).mpr ⟨hx, hne⟩
     · have h2 := mu_done B σ.st (Req.shred (bidOf B) i j) hout
